@@ -58,9 +58,9 @@ pub fn generate(g: &mut Gen) {
     // corpus blocks: the block itself, its header, its transactions
     let mut blocks: Vec<Vec<u8>> = vec![];
     for (_n, b) in fx::hex_files("block") {
-        if b.len() > 400_000 && !g.thorough() { continue; }
         blocks.push(b);
     }
+    if let Some(e) = fx::small_ebb() { blocks.push(e); }
     // immutable-db chunks: concatenated blocks
     for b in fx::chunk_blocks(if g.thorough() { 8 } else { 400 }) { blocks.push(b); }
     let mut headers: Vec<(u64, Vec<u8>)> = vec![];
